@@ -121,7 +121,10 @@ var _lower = [256]byte{
 //
 // containsKelvin returns true if string s contains rune 'K' (Kelvin).
 func containsKelvin(s []byte) bool {
-	return len(s) > 0 && indexRuneCase(s, '\u212A') != -1
+	// U+FFFD is the other 3 byte rune that is equal to a 1 byte rune (any
+	// invalid byte) so it must prevent the same length based shortcuts.
+	return len(s) > 0 && (indexRuneCase(s, '\u212A') != -1 ||
+		bytes.Contains(s, []byte("\uFFFD")))
 }
 
 // HasPrefix tests whether the string s begins with prefix ignoring case.
